@@ -162,6 +162,7 @@ func genInterleaveCase(t *rapid.T) Case {
 	}
 	c.EmptySecretOK = rapid.Bool().Draw(t, "empty-secret-ok")
 	c.LaxDelete = rapid.IntRange(0, 3).Draw(t, "lax-delete") == 0
+	c.Issuer = rapid.SampledFrom(issuerChoices).Draw(t, "issuer")
 	return c
 }
 
